@@ -103,6 +103,11 @@ func balanced(s string) error {
 				st = append(st, t.Name)
 			}
 		case html.EndTagToken:
+			if voidEls[t.Name] {
+				// the end tag of a void element neither opens nor closes anything (C09's premise
+				// and conclusion speak of non-void elements); what happens to it is checked apart
+				continue
+			}
 			if len(st) == 0 || st[len(st)-1] != t.Name {
 				return fmt.Errorf("end tag </%s> with open elements %v", t.Name, st)
 			}
